@@ -111,7 +111,7 @@ func swapCase(s string) string {
 }
 
 // buildReply returns the wire reply of a stub in mode m (nil = no reply).
-func buildReply(m mode, req *dns.Msg, netw string, ident net.IP) []byte {
+func buildReply(m mode, req *dns.Msg, netw string, ident net.IP, nonce string) []byte {
 	if m == mSilent || m == mClosed || len(req.Question) == 0 {
 		return nil
 	}
@@ -127,12 +127,18 @@ func buildReply(m mode, req *dns.Msg, netw string, ident net.IP) []byte {
 	resp.Answer = []dns.RR{&dns.A{
 		Hdr: dns.RR_Header{Name: owner, Rrtype: dns.TypeA, Class: dns.ClassINET, Ttl: 60},
 		A:   ident,
+	}, &dns.TXT{
+		// the fixture's nonce: a reply of another instance of this check (a
+		// port taken over while a stub is scripted closed) is recognised
+		Hdr: dns.RR_Header{Name: owner, Rrtype: dns.TypeTXT, Class: dns.ClassINET, Ttl: 60},
+		Txt: []string{nonce},
 	}}
 	switch m {
 	case mTrunc:
 		if netw == "udp" {
 			// the truncated reply carries a marked identity (third octet +10)
 			resp.Truncated = true
+			resp.Answer = resp.Answer[:1]
 			ip := append(net.IP(nil), ident.To4()...)
 			ip[2] += 10
 			resp.Answer[0].(*dns.A).A = ip
@@ -184,11 +190,12 @@ type rec struct {
 }
 
 type stub struct {
-	role string // "main" or "fb"
-	idx  int
-	ip   net.IP
-	port int
-	addr netip.AddrPort
+	role  string // "main" or "fb"
+	idx   int
+	nonce string
+	ip    net.IP
+	port  int
+	addr  netip.AddrPort
 
 	mu    sync.Mutex
 	mode  mode
@@ -210,8 +217,16 @@ var (
 
 // newStub binds a stub on a port outside the kernel's ephemeral range, so that
 // no other process can be handed the port while the stub is scripted "closed".
-func newStub(role string, idx int) (*stub, error) {
-	s := &stub{role: role, idx: idx}
+// stubAddr is a loopback address private to this process (derived from the
+// pid), so that concurrent instances of this check cannot be handed each
+// other's ports while a stub is scripted closed.
+var stubAddr = func() netip.Addr {
+	pid := os.Getpid()
+	return netip.AddrFrom4([4]byte{127, byte(64 + (pid>>16)&0x3f), byte(pid >> 8), byte(pid)})
+}()
+
+func newStub(role string, idx int, nonce string) (*stub, error) {
+	s := &stub{role: role, idx: idx, nonce: nonce}
 	if role == "main" {
 		s.ip = net.IPv4(10, 17, 1, byte(idx))
 	} else {
@@ -230,7 +245,7 @@ func newStub(role string, idx int) (*stub, error) {
 			continue
 		}
 		s.port = p
-		s.addr = netip.AddrPortFrom(netip.AddrFrom4([4]byte{127, 0, 0, 1}), uint16(p))
+		s.addr = netip.AddrPortFrom(stubAddr, uint16(p))
 		if err = s.listen(1); err == nil {
 			return s, nil
 		}
@@ -323,7 +338,7 @@ func (s *stub) handle(raw []byte, netw string) []byte {
 	m := s.mode
 	s.log = append(s.log, rec{T: now, Net: netw, Name: req.Question[0].Name, Qtype: req.Question[0].Qtype, ID: req.Id, Mode: m})
 	s.mu.Unlock()
-	return buildReply(m, req, netw, s.ip)
+	return buildReply(m, req, netw, s.ip, s.nonce)
 }
 
 func (s *stub) serveUDP(pc net.PacketConn) {
@@ -830,6 +845,7 @@ type queryObs struct {
 	Out        outcome `json:"outcome"`
 	Err        string  `json:"err,omitempty"`
 	Resp       string  `json:"resp,omitempty"`
+	Foreign    bool    `json:"reply_carries_another_instances_nonce,omitempty"`
 }
 
 func union(a, b []int) []int {
@@ -1092,6 +1108,7 @@ type fixture struct {
 	h          *forward.Handler
 	hcSuffix   string
 	nets       []string
+	nonce      string
 }
 
 func (fx *fixture) all() []*stub { return append(append([]*stub{}, fx.mains...), fx.fbs...) }
@@ -1107,9 +1124,10 @@ func netOf(s string) forward.Network {
 }
 
 func newFixture(M, F int, nets []string) (*fixture, error) {
-	fx := &fixture{byAddr: map[string]*stub{}, lst: &listener{}, nets: nets}
+	fx := &fixture{byAddr: map[string]*stub{}, lst: &listener{}, nets: nets,
+		nonce: fmt.Sprintf("c17-%d-%016x", os.Getpid(), rand.Uint64())}
 	for i := 0; i < M; i++ {
-		s, err := newStub("main", i)
+		s, err := newStub("main", i, fx.nonce)
 		if err != nil {
 			fx.close()
 			return nil, err
@@ -1118,7 +1136,7 @@ func newFixture(M, F int, nets []string) (*fixture, error) {
 		fx.byAddr[s.addr.String()] = s
 	}
 	for i := 0; i < F; i++ {
-		s, err := newStub("fb", i)
+		s, err := newStub("fb", i, fx.nonce)
 		if err != nil {
 			fx.close()
 			return nil, err
@@ -1250,7 +1268,21 @@ func (fx *fixture) observe(req *dns.Msg, rw *recRW, err error, recs [][]rec) (o 
 		neither = true
 	default:
 		mismatch = replyMismatch(req, resp)
+		if mismatch != "" && resp.Truncated {
+			mismatch += "+tc" // a truncated reply is a reply: same rule
+		}
 		role, idx := identify(resp)
+		if role != "unknown" {
+			o.Foreign = true
+			for _, rr := range resp.Answer {
+				if t, ok := rr.(*dns.TXT); ok && len(t.Txt) == 1 && t.Txt[0] == fx.nonce {
+					o.Foreign = false
+				}
+			}
+			if resp.Truncated && len(resp.Answer) == 1 {
+				o.Foreign = false // the marked truncated UDP reply carries no nonce
+			}
+		}
 		kind := "other"
 		switch {
 		case resp.Truncated:
@@ -1320,6 +1352,7 @@ func runCase(r *vkit.Run, cs caseSpec) {
 	state := make([]mainState, cs.M)
 	everFailed := make([]bool, cs.M)
 	downAtRefresh := make([]bool, cs.M) // F == 0: main was failing during some Refresh
+	ctxFailed := make([]bool, cs.M)     // the last failed probe ended with its round's context
 	initDown := false                   // F == 0: some main was failing during the initial health check
 	tags := map[string]bool{}
 	logPos := make([]int, cs.M+cs.F)
@@ -1421,6 +1454,11 @@ func runCase(r *vkit.Run, cs caseSpec) {
 					return
 				}
 				o, mismatch, both, _ := fx.observe(breq, brw, berr, brecs)
+				if o.Foreign {
+					r.Bucket("ambiguous_foreign_reply", 1)
+					tags["ambiguous"] = true
+					return
+				}
 				tr := stepTrace{Step: si, Op: "burst-query " + name, StartMs: ms(q0), EndMs: ms(q1), Obs: &o, Active: append([]bool(nil), active...)}
 				if mismatch != "" {
 					trace = append(trace, tr)
@@ -1564,6 +1602,11 @@ func runCase(r *vkit.Run, cs caseSpec) {
 		switch st.Op {
 		case "query":
 			o, mismatch, both, neither := fx.observe(req, rw, callErr, recs)
+			if o.Foreign {
+				r.Bucket("ambiguous_foreign_reply", 1)
+				tags["ambiguous"] = true
+				return
+			}
 			tr.Obs = &o
 			if mismatch != "" {
 				trace = append(trace, tr)
@@ -1587,6 +1630,15 @@ func runCase(r *vkit.Run, cs caseSpec) {
 				for i, d := range dead {
 					if d {
 						dp = append(dp, i)
+					}
+				}
+				if key == "query:failed-main-used-before-recovery" {
+					for _, m := range union(o.StubMains, o.ExtraMains) {
+						if !active[m] && ctxFailed[m] {
+							key += ":probe-ended-with-refresh-context"
+							what += " (its last probe got no answer before the context of that health-check round ended)"
+							break
+						}
 					}
 				}
 				if key == "query:fallback-not-tried" {
@@ -1700,7 +1752,9 @@ func runCase(r *vkit.Run, cs caseSpec) {
 						// undecidable from the timestamps: accept what was observed
 						r.Bucket("ambiguous_backoff_boundary", 1)
 						tags["backoff-boundary"] = true
-						if mm[i] == mClosed {
+						if mm[i] == mClosed || st.Ctx != "" {
+							// (a round whose context ended may have failed this
+							// main without sending anything)
 							decision = "unknown-closed"
 						} else if probed {
 							decision = "probe"
@@ -1721,6 +1775,10 @@ func runCase(r *vkit.Run, cs caseSpec) {
 						}
 					} else {
 						r.Bucket("backoff_skips_confirmed", 1)
+						if ctxFailed[i] {
+							r.Bucket("backoff_held_after_context_ended_probe", 1)
+							tags["backoff-after-ctx-ended-probe"] = true
+						}
 					}
 					tags["in-backoff"] = true
 				case "unknown-closed":
@@ -1732,7 +1790,7 @@ func runCase(r *vkit.Run, cs caseSpec) {
 						dead[i] = false
 						r.Bucket("dead_pooled_tcp:probe_failed", 1)
 					}
-					if !probed && mm[i] != mClosed {
+					if !probed && mm[i] != mClosed && st.Ctx == "" {
 						trace = append(trace, tr)
 						fail("refresh:eligible-main-not-probed", "a health-check round did not probe a main upstream that is not in back-off", si,
 							map[string]any{"main": i})
@@ -1744,6 +1802,7 @@ func runCase(r *vkit.Run, cs caseSpec) {
 							tags["recovery"] = true
 						}
 						state[i] = mainState{}
+						ctxFailed[i] = false
 						active[i] = true
 					} else {
 						allOK = false
@@ -1752,6 +1811,11 @@ func runCase(r *vkit.Run, cs caseSpec) {
 							lo = recs[i][0].T
 						}
 						state[i] = mainState{Failed: true, L: lo, U: c1}
+						ctxFailed[i] = st.Ctx != ""
+						if st.Ctx != "" {
+							r.Bucket("probe_failures_in_round_with_"+st.Ctx+"_context", 1)
+							tags["probe-fail:ctx-"+st.Ctx] = true
+						}
 						active[i] = false
 						everFailed[i] = true
 						r.Bucket("probe_failures", 1)
@@ -2034,6 +2098,10 @@ func runConcurrent(r *vkit.Run, idx int) {
 		}
 		check := func(q qr, cand [][]bool, phase string) bool {
 			o, mismatch, both, _ := fx.observe(q.req, q.rw, q.err, pick(q.name))
+			if o.Foreign {
+				r.Bucket("ambiguous_foreign_reply", 1)
+				return false
+			}
 			w := map[string]any{"instance": idx, "mains": M, "fallbacks": F, "networks": nets, "round": rd, "rounds": spec, "phase": phase,
 				"query": q.name, "observed": o, "active_before": active, "active_after": after,
 				"query_started_after_last_refresh_returned": q.c0.After(refreshEnd)}
@@ -2084,13 +2152,14 @@ func TestCheck(t *testing.T) {
 	r.Rule("sequential: seeded schedules of queries / Refresh rounds (immediately, after about half the back-off, or clearly beyond it) against the real forward.Handler with M in {1,2,3} mains and " +
 		"F in {0,1,2} fallbacks (all nine combinations), back-off in {0, 450ms, 750ms, 1h}, upstream networks all-any / all-tcp / mixed any,tcp,udp; every stub has a scripted behaviour per step out of " +
 		"up, upcase (valid reply, question re-cased), trunc (TC over UDP, answer over TCP), servfail, wrongid, wrongname, wrongtype, noquestion, short (<17 bytes), " +
-		"silent (timeout), closed (port closed). Half of the cases start with a fail/detect/recover-inside-backoff/recover-beyond-backoff template, a quarter with a template that lets every upstream answer (connections pooled), then closes upstreams together with their accepted connections and queries before any Refresh; the rest is a random walk; half of the F=0 cases begin with mains failing during the initial health check (HealthcheckInitDuration>0), then recovering, then bursts of 24*M queries in which every main must be chosen at least once. " +
+		"silent (timeout), closed (port closed). Half of the cases start with a fail/detect/recover-inside-backoff/recover-beyond-backoff template, a quarter with a template that lets every upstream answer (connections pooled), then closes upstreams together with their accepted connections and queries before any Refresh; the rest is a random walk; half of the F=0 cases begin with mains failing during the initial health check (HealthcheckInitDuration>0), then recovering, then bursts of 24*M queries in which every main must be chosen at least once; garbage also as wrongname+tc / wrongtype+tc / noquestion+tc (right ID, TC set, on both transports); some Refresh rounds against silent mains get a 60 ms context deadline or are cancelled after 50 ms, followed inside the back-off by recovery of the main, a Refresh and queries. " +
 		"distinct = (M, F, back-off class, set of event kinds the oracle matched in the case); non-trivial = the set holds something else than plain main answers " +
 		"and all-ok refreshes (a fail-over, a rejected reply, a failed probe, a back-off skip, a recovery ...). " +
 		"concurrent: queries from 6 goroutines concurrent with Refresh under the race detector, judged against the union of the active sets before/after")
 	r.Assume("the health check is driven only by explicit Refresh calls (no background worker started by the harness)")
 	r.Assume("back-off decisions are judged by interval arithmetic on monotonic timestamps taken around each call; undecidable ones follow the observation and are counted in ambiguous_backoff_boundary")
 	r.Assume("a call that lasted at least one upstream timeout longer than the silent stubs it reached can explain may hide a spurious timeout of a replying stub: the rest of that case is dropped (ambiguous_slow_call)")
+	r.Assume("stubs listen on a loopback address derived from the pid (127.64+x.y.z) and on ports outside the ephemeral range, and their replies carry a per-fixture nonce: a reply with a foreign nonce drops the case (ambiguous_foreign_reply)")
 	r.Assume("a closed stub cannot record requests; that a closed upstream was tried is inferred (or taken from forward.Error / MetricsListener when they name it)")
 	r.Assume("a SERVFAIL reply with matching ID/question is a reply of the chosen main upstream: it is relayed and does not trigger the fallback")
 
@@ -2140,6 +2209,8 @@ func TestCheck(t *testing.T) {
 		"garbage_rejected:wrongname+tc":                     10,
 		"garbage_rejected:wrongtype+tc":                     10,
 		"garbage_rejected:noquestion+tc":                    8,
+		"probe_failures_in_round_with_short_context":        6,
+		"probe_failures_in_round_with_cancel_context":       6,
 		"backoff_held_after_context_ended_probe":            8,
 		"queries_failover_after_network_error":              70,
 		"queries_fallback_no_active_main":                   120,
